@@ -450,6 +450,7 @@ func TestVerif_C07(t *testing.T) {
 	}
 	c.AddValidated(c.Evaluations)
 	c.Assume("2-3 rows x boundary columns of shard 0; background snapshot modelled as an explicit event run by the harness from the fragment's own queue")
+	c.Assume("phase B (state-merged BFS) cannot see the B-tree lookaside cache of the storage bitmap (unexported in package roaring): states differing only there are merged; lookaside-dependent behaviour is decided by phase A here and by C02 at the roaring level")
 	if c.Finish() != 0 {
 		t.Fail()
 	}
